@@ -105,10 +105,72 @@ def main11(tag, outdir):
         open(os.path.join(outdir, aid + ".txt"), "w").write(out)
         print(aid, len(out), len(used))
 
+# wave 12: by REFUSAL (error condition) - the checks that protect the properties
+REFUSALS12 = [
+ ("E01", ["InvalidStartTick", "TickArrayExistInPool", "TickArrayIndexOutofBounds", "InvalidTickSpacing"]),
+ ("E02", ["ClosePositionNotEmpty", "SameTickRangeNotAllowed", "InvalidTickIndex"]),
+ ("E03", ["SqrtPriceOutOfBounds", "InvalidSqrtPriceLimitDirection", "PartialFillError", "ZeroTradableAmount"]),
+ ("E04", ["LiquidityZero", "LiquidityTooHigh", "LiquidityOverflow", "LiquidityUnderflow", "LiquidityNetError"]),
+ ("E05", ["TokenMaxExceeded", "TokenMinSubceeded", "PriceSlippageOutOfBounds"]),
+ ("E06", ["MissingOrInvalidDelegate", "InvalidPositionTokenAmount"]),
+ ("E07", ["InvalidTimestamp", "InvalidTimestampConversion", "RewardNotInitialized", "InvalidRewardIndex", "RewardVaultAmountInsufficient"]),
+ ("E08", ["FeeRateMaxExceeded", "ProtocolFeeRateMaxExceeded", "InvalidFeeTierIndex"]),
+ ("E09", ["InvalidTickArraySequence", "TickArraySequenceInvalidIndex", "DifferentWhirlpoolTickArrayAccount", "TooManySupplementalTickArrays"]),
+ ("E10", ["AmountOutBelowMinimum", "AmountInAboveMaximum", "IntermediateTokenAmountMismatch"]),
+ ("E11", ["InvalidIntermediaryMint", "DuplicateTwoHopPool", "InvalidTokenMintOrder"]),
+ ("E12", ["InvalidBundleIndex", "BundledPositionAlreadyOpened", "BundledPositionAlreadyClosed", "PositionBundleNotDeletable"]),
+ ("E13", ["UnsupportedTokenMint", "FeatureIsNotEnabled", "PositionWithTokenExtensionsRequired"]),
+ ("E14", ["RemainingAccountsInvalidSlice", "RemainingAccountsInsufficient", "RemainingAccountsDuplicatedAccountsType", "NoExtraAccountsForTransferHook"]),
+ ("E15", ["TransferFeeCalculationError", "AmountCalcOverflow", "AmountRemainingOverflow"]),
+ ("E16", ["MultiplicationShiftRightOverflow", "MulDivOverflow", "MulDivInvalidInput", "MultiplicationOverflow", "DivideByZero", "NumberCastError", "NumberDownCastError", "TickNotFound"]),
+ ("E17", ["FullRangeOnlyPool", "PositionNotLockable", "OperationNotAllowedOnLockedPosition"]),
+ ("E18", ["InvalidAdaptiveFeeConstants", "AdaptiveFeeConstantsUnchanged", "InvalidTradeEnableTimestamp", "TradeIsNotEnabled"]),
+ ("E19", ["the Anchor framework refusals raised by `#[account(...)]` constraints (ConstraintSeeds, ConstraintHasOne, ConstraintAddress, ConstraintTokenMint, ConstraintRaw, ConstraintMut, AccountOwnedByWrongProgram, ...) in the accounts structs of the liquidity, collect, swap and position instructions, and their hand-written counterparts in the Pinocchio handlers"]),
+ ("E20", ["the error results of rust-sdk/core (ARITHMETIC_OVERFLOW, AMOUNT_EXCEEDS_MAX_U64, SQRT_PRICE_OUT_OF_BOUNDS, TICK_SEQUENCE_EMPTY, INVALID_TICK_ARRAY_SEQUENCE, ZERO_TRADABLE_AMOUNT, INVALID_SQRT_PRICE_LIMIT_DIRECTION, TICK_ARRAY_NOT_EVENLY_SPACED, ... see rust-sdk/core/src/constants/error.rs)"]),
+]
+
+def main12(tag, outdir):
+    os.makedirs(outdir, exist_ok=True)
+    root = os.path.dirname(os.path.dirname(os.path.abspath(__file__)))
+    brief = open(os.path.join(root, "notes/SEED_BRIEF.md")).read().split("\n---\n", 1)[1]
+    props = [json.loads(l) for l in open(os.path.join(root, "properties.jsonl"))]
+    metas = []
+    for d in sorted(glob.glob(os.path.join(root, "seeded", "[CABD]*"))):
+        try:
+            m = json.load(open(os.path.join(d, "meta.json")))
+        except Exception:
+            continue
+        metas.append((os.path.basename(d), str(m.get("breaks", ""))[:260]))
+    plist = "\n".join(f"* {p['id']} — {p['title']}. {p['statement']}" for p in props)
+    for aid, errs in REFUSALS12:
+        keys = [e for e in errs if " " not in e]
+        used = [f"* {b}" for n, b in metas if any(k.lower() in b.lower() for k in keys)]
+        d = f"/tmp/{tag}_{aid}"
+        text = ("This time you are not given one property but a set of REFUSALS - error conditions the program (or SDK) raises to protect its "
+                "properties. The repository is expected to satisfy all of the following properties (each must hold for every input, history "
+                "and configuration):\n\n" + plist +
+                "\n\nYour assigned refusals (see programs/whirlpool/src/errors.rs for the program's error codes):\n" + "\n".join(f"  - {e}" for e in errs) +
+                "\n\nFind where these refusals are raised (Anchor handlers and accounts structs, Pinocchio handlers, managers, state methods, "
+                "math) and make a change after which ONE of them is, in some specific situation, no longer raised when it should be, raised "
+                "only after state has already been changed, evaluated against the wrong or a stale value, or skipped on one of several code "
+                "paths that should all raise it - so that one of the properties above breaks. Pick whichever property your change breaks, and "
+                "say which one in meta.json (\"property\": \"Cxx\").")
+        out = (brief.replace("{dir}", d).replace("{property}", text).replace("{used}", "\n".join(used[:40]) or "(none recorded for these refusals)")
+               .replace("{steer}", "The situation in which the refusal goes missing must be narrow: the ordinary inputs that trigger it must still be refused "
+                        "(a check that simply disappears is noticed at once). Good shapes: a refusal that still fires on the common path but not on the "
+                        "v1/v2/Pinocchio twin, not for one account encoding, not at one boundary value, not after a particular history, or not when "
+                        "another optional account is present.")
+               .replace("{id}", "Cxx"))
+        out = out.replace("Earlier changes written against this property are listed here", "Earlier changes that mention these refusals are listed here")
+        open(os.path.join(outdir, aid + ".txt"), "w").write(out)
+        print(aid, len(out), len(used))
+
 def main():
     tag, outdir = sys.argv[1], sys.argv[2]
     if tag.startswith("seed11"):
         return main11(tag, outdir)
+    if tag.startswith("seed12"):
+        return main12(tag, outdir)
     os.makedirs(outdir, exist_ok=True)
     root = os.path.dirname(os.path.dirname(os.path.abspath(__file__)))
     brief = open(os.path.join(root, "notes/SEED_BRIEF.md")).read().split("\n---\n", 1)[1]
